@@ -35,6 +35,7 @@ class SigV:
     type: str | None  # None: implicit (compiler-chosen) signal
     v: object
     implicit_id: int | None = None  # identity of the implicit signal (distinct untyped values differ)
+    is_cmp: bool = False  # value of a comparison (or && / || of comparisons)
     note: str | None = None  # "cmp-nonvirtual": type stems from a comparison whose left operand is an item/fluid signal
 
 
@@ -260,9 +261,7 @@ class Sem:
         inner = self.expr(e.value, env)
         t = self._type_name(e.signal_type, env)
         if t is None:
-            if isinstance(inner, SigV):
-                return inner
-            return SigV(None, self.B.const(inner.v), self.fresh_implicit()) if isinstance(inner, IntV) else inner
+            return inner  # an untyped literal is a plain compile-time integer until a Signal context coerces it
         return SigV(t, self.num(inner))
 
     def x_UnaryOp(self, e, env):
@@ -280,7 +279,7 @@ class Sem:
             if e.op == "+":
                 return v
             if e.op == "!":
-                return SigV(v.type, self.B.b2i(self.B.not_(self.B.nonzero(v.v))), v.implicit_id)
+                return SigV(v.type, self.B.b2i(self.B.not_(self.B.nonzero(v.v))), v.implicit_id, True)
         raise SemError(f"unary {e.op}")
 
     def x_BinaryOp(self, e, env):
@@ -319,7 +318,8 @@ class Sem:
             val = self.B.b2i(self.B.or_(self.B.nonzero(a), self.B.nonzero(b)))
         else:
             raise SemError(f"operator {op}")
-        return SigV(t, val, iid, note)
+        is_cmp = op in CMP_OPS or (op in ("&&", "||") and (getattr(l, "is_cmp", False) or getattr(r, "is_cmp", False)))
+        return SigV(t, val, iid, is_cmp, note)
 
     def _each(self, op, member, scalar):
         B = self.B
@@ -388,9 +388,13 @@ class Sem:
                     else:
                         raise SemError("filter output")
                 return BunV(res)
+        c = None
         if not self._is_comparison(cond):
-            raise Rejected("non-comparison before ':'")
-        c = self.expr(cond, env)
+            c = self.expr(cond, env)
+            if not (isinstance(c, SigV) and c.is_cmp):
+                raise Rejected("non-comparison before ':'")
+        if c is None:
+            c = self.expr(cond, env)
         truth = self.truth(c)
         out = self.expr(e.output_value, env)
         B = self.B
@@ -536,7 +540,7 @@ def _patch_quantifiers():
                 t = B.or_(*[B.and_(B.nonzero(v), B.cmp(e.op, v, r)) for v in vals]) if vals else B.false()
             else:
                 t = B.and_(*[B.or_(B.not_(B.nonzero(v)), B.cmp(e.op, v, r)) for v in vals]) if vals else B.true()
-            return SigV(None, B.b2i(t), self.fresh_implicit())
+            return SigV(None, B.b2i(t), self.fresh_implicit(), True)
         return orig(self, e, env)
 
     Sem.x_BinaryOp = x_BinaryOp
